@@ -121,3 +121,51 @@ def make(seed, calm=False, allow_size=False, length=None):
     if rng.random() < 0.7:
         cmds.append({"c": "probe", "k": rng.choice([1, 2, 3, 4])})
     return {"cfg": cfg, "cmds": cmds, "seed": seed}
+
+
+def make_multi(seed):
+    """Two or three pools of either class in one loop, operated in an interleaved way (C11: independent numbering,
+    distinct names of unnamed pools; every other property per pool)."""
+    rng = random.Random(seed)
+    npools = rng.choice([2, 2, 3])
+    pools, simple = [], []
+    for p in range(npools):
+        sp = rng.random() < 0.4
+        simple.append(sp)
+        cfg = {"cls": "SimpleTaskPool" if sp else "TaskPool", "size": rng.choice([1, 2, 3, -1])}
+        if sp:
+            cfg["simple"] = rand_plan(rng, True)
+            cfg["reqs"] = []
+        else:
+            cfg["reqs"] = [rand_template(rng, True, r) for r in range(2)]
+            for t in cfg["reqs"]:
+                t["gname"] = None
+                t.pop("notcoro", None)
+                t["nc"] = max(1, t["nc"])
+        pools.append(cfg)
+    cmds = []
+    counter = iter(range(10 ** 6))
+    for _ in range(rng.choice([10, 18, 30])):
+        y = rng.random()
+        if y < 0.45:
+            cmds.append({"c": "step"})
+        elif y < 0.55:
+            cmds.append({"c": "idle"})
+        else:
+            p = rng.randrange(npools)
+            op = rand_op(rng, pools[p], 2, counter, simple[p], False)
+            if op["o"] == "hstart" and op["kind"] == "gac":
+                continue
+            if op["o"] == "unlock":
+                continue
+            op["p"] = p
+            cmds.append({"c": "op", "op": op})
+    cmds.append({"c": "drain"})
+    if rng.random() < 0.5:
+        # close one pool for good, then create another unnamed one next to the survivors and use it
+        victim = rng.randrange(npools)
+        cmds += [{"c": "op", "op": {"o": "hstart", "kind": "gac", "re": True, "p": victim}}, {"c": "drain"}]
+        newcfg = {"cls": "TaskPool", "size": 2, "reqs": [dict(rand_template(rng, True, 0), gname=None, nc=1, kind="apply", num=2)]}
+        newcfg["reqs"][0].pop("notcoro", None)
+        cmds += [{"c": "newpool", "cfg": newcfg}, {"c": "op", "op": {"o": "spawn", "t": 0, "p": npools}}, {"c": "drain"}]
+    return {"cfg": {"pools": pools}, "cmds": cmds, "seed": seed}
